@@ -233,6 +233,6 @@ def view(case):
 
 def campaigns(tier: str) -> List[Campaign]:
     return [Campaign("counters", c14_case(), check, quick=400, thorough=20000, quick_shards=8,
-                     required_classes={"launch_and_start_same_instant": 0.15, "multi_stream": 0.18, "zero_length_copy": 0.03,
+                     required_classes={"unrounded_fractional_times": 0.05, "launch_and_start_same_instant": 0.15, "multi_stream": 0.18, "zero_length_copy": 0.03,
                                        "counter_file": 0.5, "shared_instant": 0.3, "multi_copy_type": 0.05, "negative_queue_length": 0.05},
                      sample_view=view)]
